@@ -598,7 +598,7 @@ class Scheme(Base):
         return out
 
     # ------------------------------------------------------------------ the engine
-    def mutate(self, cname, full_names=(), sample=0.05, swaps=True, only=None):
+    def mutate(self, cname, full_names=(), sample=0.05, swaps=True, only=None, light=False):
         """run every mutation of every component (or of those selected by `only`) of the current honest instance"""
         ctx, R, rng = self.ctx, self.R, self.rng
         comps = self.comps()
@@ -615,6 +615,15 @@ class Scheme(Base):
                         so = self.snap(o)
                         if so != saved:
                             lst.append(("swapped", (lambda so=so: self.restore(c, so))))
+            if light and not full:
+                # one case per class and component (many-member rings: the swap partners alone are quadratic)
+                seen, l2 = set(), []
+                rng.shuffle(lst)
+                for cls, apply in lst:
+                    if cls not in seen:
+                        seen.add(cls)
+                        l2.append((cls, apply))
+                lst = l2
             for cls, apply in lst:
                 if (c.name, cls) in self.directed_only:
                     continue
@@ -1118,9 +1127,12 @@ class Etrs(PokOr):
                 return False
             R.wr_sz(self.cnt, 1)
             self.thres, self.skip = 1, 0
-            if self.mode == "ext":
+            if self.mode in ("ext", "ext2"):
                 res = R.call("cp_etrs_ext", self.td, self.y, self.max, self.ring, self.cnt, m, len(msg), self.pks[1], self.pp)
                 self.skip = 1
+                if self.mode == "ext2" and not res.caught and res.i == R.OK:
+                    res = R.call("cp_etrs_ext", self.td, self.y, self.max, self.ring, self.cnt, m, len(msg), self.pks[2], self.pp)
+                    self.skip = 2
             elif self.mode == "uni":
                 res = R.call("cp_etrs_uni", 1, self.td, self.y, self.max, self.ring, self.cnt, m, len(msg), self.sks[1], self.pks[1], self.pp)
                 self.thres = 2
@@ -1176,8 +1188,9 @@ def run_ec(ctx):
         schemes = [Vbnn(ctx, R), PokDl(ctx, R), SokDl(ctx, R), PokOr(ctx, R),
                    PokOr(ctx, R, True, False, 0), PokOr(ctx, R, True, False, 1),
                    PokOr(ctx, R, True, True, 0), PokOr(ctx, R, True, True, 1),
-                   Ers(ctx, R, 1), Ers(ctx, R, 3), Ers(ctx, R, 1, True), Ers(ctx, R, 2, True),
-                   Etrs(ctx, R, "sig"), Etrs(ctx, R, "ext"), Etrs(ctx, R, "uni")]
+                   Ers(ctx, R, 1), Ers(ctx, R, 2), Ers(ctx, R, 3), Ers(ctx, R, 4),
+                   Ers(ctx, R, 1, True), Ers(ctx, R, 2, True), Ers(ctx, R, 3, True),
+                   Etrs(ctx, R, "sig"), Etrs(ctx, R, "ext"), Etrs(ctx, R, "uni"), Etrs(ctx, R, "ext2")]
         for si, sch in enumerate(schemes):
             di += 1
             sch.di = di * 1000
@@ -1197,7 +1210,7 @@ def run_ec(ctx):
             heavy = isinstance(sch, (Ers, Etrs))
             t0 = time.time()
             if sch.msg_kind == "bytes":
-                stride = 7 if heavy else (5 if sch.name.startswith("sokor-") else 1)
+                stride = (7 if getattr(sch, "size", 1) in (1, 3) else 19) if heavy else (5 if sch.name.startswith("sokor-") else 1)
                 if isinstance(sch, Etrs):
                     stride = 23
                 if q and stride == 1 and (ci + si) % 6:
@@ -1211,7 +1224,7 @@ def run_ec(ctx):
             # mutation soundness: one owner shard per (curve, scheme); exhaustive bit flips on a third of them
             if not ctx.mine(di) and q:
                 continue
-            if q and isinstance(sch, Etrs) and (ci + si) % 3:
+            if q and isinstance(sch, Etrs) and (ci + si) % 2:
                 continue
             if q and (sch.name.startswith("sokor-") or (heavy and getattr(sch, "size", 1) > 1)) and (ci + si) % 2:
                 continue        # variants of one verifier: three of the six curves each, same classes
@@ -1222,14 +1235,12 @@ def run_ec(ctx):
                 scal = [c.name for c in sch.comps() if c.kind in ("bn", "bytes")]
                 full = set(scal if not heavy else scal[:4])
             t0 = time.time()
-            only = None
             if isinstance(sch, Etrs):
                 full = ()
             elif heavy and sch.size > 1 and q:
-                last = "[%d]" % (sch.size - 1)
-                only = lambda c: "[" not in c.name or c.name.endswith(last)
+                # every member position (first, middle, last) is altered; exhaustive flips only on the trapdoor
                 full = set(["td"]) if full else ()
-            sch.mutate(nm, full_names=full, sample=0.02 if heavy else 0.05, only=only)
+            sch.mutate(nm, full_names=full, sample=0.02 if heavy else 0.05, light=q and heavy and getattr(sch, "size", 2) > 1)
             ctx.add("seconds_mutation:" + sch.name, round(time.time() - t0, 1))
             sch.finish()
     ctx.note("functions_exercised", sorted(k for k in R.fn_seen if k.startswith("cp_")))
